@@ -87,7 +87,8 @@ Value& SUBSTRExpression::value(Context & ctx) const
     if (c == 0)
       return val;
     a = (a < 0 ? a + c : a);
-    b = std::max<int64_t>(std::min(b, c - a), 0L);
+    /* a position still negative selects nothing (and c - a would overflow for INT64_MIN) */
+    b = (a < 0 ? 0 : std::max<int64_t>(std::min(b, c - a), 0L));
     if (a >= 0 && b > 0)
     {
       if (val.lvalue())
